@@ -114,13 +114,18 @@ type c19WEntry struct {
 func c19KeyOf(okeys, mkeys []string) string { return c19HexKeys(okeys) + "/" + c19HexKeys(mkeys) }
 
 func c19GatherRecordCounters(ss []c19Series, cfg *c19Config) *c19RecordCounters {
+	return c19GatherRecordCountersBy(ss, cfg.okeyNames(), cfg.mkeyNames())
+}
+
+// c19GatherRecordCountersBy: the same for given orchestration / metric key names (kind 4 has no orchestration keys).
+func c19GatherRecordCountersBy(ss []c19Series, okeyNames, mkeyNames []string) *c19RecordCounters {
 	rc := &c19RecordCounters{InLab: map[string]c19Cnt{}, W: map[string]*c19WEntry{}}
 	entry := func(s c19Series) *c19WEntry {
 		var ok, mk []string
-		for _, k := range cfg.okeyNames() {
+		for _, k := range okeyNames {
 			ok = append(ok, s.Labels["key_"+k])
 		}
-		for _, k := range cfg.mkeyNames() {
+		for _, k := range mkeyNames {
 			mk = append(mk, s.Labels["key_"+k])
 		}
 		key := c19KeyOf(ok, mk)
